@@ -79,6 +79,7 @@ type e3Fault struct {
 
 type c17Case struct {
 	Faults []e3Fault `json:"faults,omitempty"`
+	Burst  []e3Call  `json:"burst,omitempty"` // client requests issued all at once
 	I      int       `json:"i"`
 	Call   e3Call    `json:"call"`
 	Keep   bool      `json:"keep,omitempty"`
@@ -141,7 +142,8 @@ func c17GenWorld(rng *rand.Rand, w int, quick bool) *c17World {
 				id += wd.Sep + words[k]
 			}
 		}
-		b := &c17B{Rec: c17BackendRec{ID: id, BackendUser: fmt.Sprintf("agent%d-w%d@sa.example.com", i, w)}}
+		stem := []string{"agent", "trevor", "inverting-proxy-agent", "service", "user", "steve.account", "Agent"}[(w+2*i)%7]
+		b := &c17B{Rec: c17BackendRec{ID: id, BackendUser: fmt.Sprintf("%s%d-w%d@sa.example.com", stem, i, w)}}
 		if sharedAgent && i == 1 {
 			b.Rec.BackendUser = wd.Bs[0].Rec.BackendUser
 		}
@@ -323,6 +325,87 @@ func c17GenCases(rng *rand.Rand, wd *c17World, keepFrac float64, history bool) {
 	c = wd.agentCall(c17Ident{"stranger", idents[1].oauth}, "requests-of-everybody", b0.Rec.ID, "other", b0.Reqs[0].RID, "other-pending", b0.Rec.ID)
 	c.Meta.Kind = "agent-other-path"
 	wd.add(c)
+
+	// caller identities derived from the rightful one: each differs from the registered backendUser, so each is a stranger
+	for bi, b := range wd.Bs {
+		a := b.Rec.BackendUser
+		at := strings.Index(a, "@")
+		derived := [][2]string{
+			{"drop-1", a[1:]}, {"drop-2", a[2:]}, {"drop-3", a[3:]},
+			{"replace-1", "s" + a[1:]}, {"replace-2", "te" + a[2:]}, {"replace-4", "vinc" + a[4:]},
+			{"prepend", "s" + a}, {"prepend-word", "user" + a},
+			{"iam-serviceAccount", "serviceAccount:" + a}, {"iam-user", "user:" + a},
+			{"upper-first", strings.ToUpper(a[:1]) + a[1:]}, {"upper-local", strings.ToUpper(a[:at]) + a[at:]}, {"lower", strings.ToLower(a)},
+			{"other-domain", a[:at] + "@sa.example.org"}, {"subdomain", a[:at] + "@evil.sa.example.com"}, {"domain-suffix", a + ".evil.example"},
+			{"trailing-dot", a + "."}, {"trailing-space", a + " "}, {"leading-space", " " + a}, {"plus-tag", a[:at] + "+x" + a[at:]},
+		}
+		var pend *c17Req
+		for _, rq := range b.Reqs {
+			if !rq.Answered && pend == nil {
+				pend = rq
+			}
+		}
+		for di, d := range derived {
+			if d[1] == a {
+				continue // byte-equal to the registered account (e.g. already lower case): not a stranger
+			}
+			rightful := false
+			for _, ob := range wd.Bs {
+				rightful = rightful || ob.Rec.BackendUser == d[1]
+			}
+			if rightful {
+				continue
+			}
+			eps := []string{"request", []string{"pending", "response"}[(di+bi)%2]}
+			if keepFrac >= 1 {
+				eps = []string{"pending", "request", "response"}
+			}
+			for _, ep := range eps {
+				c := wd.agentCall(c17Ident{"derived:" + d[0], &e3OAuth{Email: d[1]}}, ep, b.Rec.ID, "other", pend.RID, "other-pending", b.Rec.ID)
+				if ep == "pending" {
+					c = wd.agentCall(c17Ident{"derived:" + d[0], &e3OAuth{Email: d[1]}}, ep, b.Rec.ID, "other", "", "n/a", "")
+					c.Call.CtxMs = 500
+				}
+				wd.add(c)
+			}
+		}
+	}
+
+	// end users on each other's private prefixes: the owner first, then somebody else on the same path, over and over
+	// (a lookup must not be influenced by the lookups that ran before it)
+	nAlt := 0
+	for _, b := range wd.Bs {
+		if b.Rec.EndUser == "allUsers" || nAlt >= 2 {
+			continue
+		}
+		nAlt++
+		others := []string{"stranger-" + w + "@u.example.com"}
+		for _, ob := range wd.Bs {
+			if ob.Rec.EndUser != "allUsers" && ob.Rec.EndUser != b.Rec.EndUser {
+				others = append(others, ob.Rec.EndUser)
+			}
+		}
+		path := escPath(b.Rec.PathPrefixes[len(b.Rec.PathPrefixes)-1] + "private/area")
+		// ... and at the same time: bursts of concurrent requests by the owner and by others
+		for k := 0; k < 4; k++ {
+			c := &c17Case{Meta: c17Meta{Kind: "user-burst", Endpoint: "client", Ident: "owner-and-others-at-once"}}
+			for j := 0; j < 12; j++ {
+				u := b.Rec.EndUser
+				if j%2 == 1 {
+					u = others[(j/2)%len(others)]
+				}
+				c.Burst = append(c.Burst, e3Call{Module: "default", Method: "GET", Path: path, AEUser: u, ReqID: fmt.Sprintf("cl-%s-burst%d-%d-%d", w, nAlt, k, j), CtxMs: 300})
+			}
+			wd.add(c)
+		}
+		for k := 0; k < 8; k++ {
+			for j, u := range []string{b.Rec.EndUser, others[k%len(others)]} {
+				c := &c17Case{Until: true, Meta: c17Meta{Kind: "user", Endpoint: "client", Ident: []string{"owner-of-private-backend", "other-user-right-after-owner"}[j], Email: u}}
+				c.Call = e3Call{Module: "default", Method: "GET", Path: path, AEUser: u, ReqID: fmt.Sprintf("cl-%s-alt%d-%d-%d", w, nAlt, k, j)}
+				wd.add(c)
+			}
+		}
+	}
 
 	// request IDs crafted so that (backend, request ID) read across the separator names another backend's request
 	if wd.Sep != "" {
@@ -614,6 +697,13 @@ type c17Result struct {
 	Hung     bool                `json:"hung"`
 	ListedIn []string            `json:"listed_in"`
 	Fired    int                 `json:"fault_fired"`
+	Burst    []struct {
+		ReqID    string   `json:"req_id"`
+		User     string   `json:"user"`
+		Status   int      `json:"status"`
+		Hung     bool     `json:"hung"`
+		ListedIn []string `json:"listed_in"`
+	} `json:"burst"`
 }
 
 func mentions(s, tok string) bool {
@@ -983,6 +1073,21 @@ func (wd *c17World) judge(r *core.Run, c *c17Case, res *c17Result, st *c17State)
 		case "add", "add-takeover", "add-reregister", "add-restore", "delete":
 			if res.Status != 200 {
 				viol("admin-"+m.Endpoint+"-fails", fmt.Sprintf("status %d", res.Status))
+			}
+		}
+	case "user-burst":
+		for _, b := range res.Burst {
+			if b.Hung {
+				viol("handler-hangs:user:client", "a client handler of the burst did not return")
+			}
+			for _, id := range b.ListedIn {
+				rec, ok := st.reg[id]
+				if !ok || (rec.EndUser != b.User && rec.EndUser != "allUsers") {
+					viol("user-routed-to-foreign-backend", fmt.Sprintf("end user %q (path %s, issued while other users' requests were in flight) was routed to backend %q registered for %q", b.User, c.Burst[0].Path, id, rec.EndUser))
+				}
+			}
+			if len(b.ListedIn) == 0 && b.Status/100 == 2 {
+				viol("unrouted-user-served", fmt.Sprintf("status %d without the request being queued for any backend", b.Status))
 			}
 		}
 	case "user", "wrong-module":
